@@ -24,6 +24,7 @@ pub(crate) struct VerifiableEncryptionDecryptionBuilder<'a> {
     message_bytes: [u8; 32],
     byte_blinders: [Scalar; 32],
     blinder_blinders: [Scalar; 32],
+    byte_nonces: [Scalar; 32],
     byte_ciphertext: Ciphertext,
     arbitrary_data_ciphertext: Vec<u8>,
 }
@@ -56,14 +57,10 @@ impl<S: ShortGroupSignatureScheme> PresentationBuilder<S>
         .expect("range proof to work");
         let blinder_proof = self.r + challenge * self.b;
         let mut byte_proofs = [ByteProof::default(); 32];
-        for ((byte_proof, byte_blinder), (message_byte, blinder_blinder)) in byte_proofs
-            .iter_mut()
-            .zip(self.byte_blinders.iter())
-            .zip(self.message_bytes.iter().zip(self.blinder_blinders.iter()))
-        {
+        for (i, byte_proof) in byte_proofs.iter_mut().enumerate() {
             *byte_proof = ByteProof {
-                message: byte_blinder + challenge * Scalar::from(*message_byte),
-                blinder: blinder_blinder + challenge * byte_blinder,
+                message: self.byte_nonces[i] + challenge * Scalar::from(self.message_bytes[i]),
+                blinder: self.blinder_blinders[i] + challenge * self.byte_blinders[i],
             };
         }
         VerifiableEncryptionDecryptionProof {
@@ -108,6 +105,7 @@ impl<'a> VerifiableEncryptionDecryptionBuilder<'a> {
         let mut byte_ciphertext = Ciphertext::default();
         let mut byte_blinders = [Scalar::ZERO; 32];
         let mut blinder_blinders = [Scalar::ZERO; 32];
+        let mut byte_nonces = [Scalar::ZERO; 32];
         let mut sum = Scalar::ZERO;
 
         let shift = Scalar::from(256u16);
@@ -148,8 +146,11 @@ impl<'a> VerifiableEncryptionDecryptionBuilder<'a> {
                 b"byte_proof_c2",
                 byte_ciphertext.c2[i].to_compressed().as_slice(),
             );
+            // the Schnorr nonce of the byte must not be the byte ciphertext's randomness:
+            // its response would reveal the byte (response * G - c1 = c * byte * G)
+            byte_nonces[i] = Scalar::random(&mut rng);
             let inner_r1 = G1Projective::GENERATOR * blinder_blinders[i];
-            let inner_r2 = statement.message_generator * byte_blinders[i]
+            let inner_r2 = statement.message_generator * byte_nonces[i]
                 + statement.encryption_key.0 * blinder_blinders[i];
 
             transcript.append_message(b"byte_proof_r1", inner_r1.to_compressed().as_slice());
@@ -194,6 +195,7 @@ impl<'a> VerifiableEncryptionDecryptionBuilder<'a> {
             message_bytes,
             byte_blinders,
             blinder_blinders,
+            byte_nonces,
             byte_ciphertext,
             arbitrary_data_ciphertext,
         })
